@@ -5,4 +5,4 @@
      DiscrR.v   uniform partitions, boundary-cell fractions, ||1||^2 = volume
      TreeR.v    nested product spaces
    This file only re-exports them. *)
-From Verif Require Export C02.Roots C02.IPS C02.TensorR C02.DiscrR.
+From Verif Require Export C02.Roots C02.IPS C02.TensorR C02.DiscrR C02.TreeR.
